@@ -245,6 +245,22 @@ KERNELS = [
     dict(name="EA_get_aim", file="base/_ea.py", cls="EvolutionaryAlgorithm", func="_get_aim",
          params=[("optimal_value", "Int"), ("termination_error_value", "Int")], ret="Int",
          self_attrs={"_sign": ("sign", "Int")}, not_none={"optimal_value": "has_optimal"}),
+    # ---- SHAGA's offspring: tournament of two on the fitness (both key arguments), binomial crossover with the parent first, flip mutation
+    dict(name="SHAGA_get_new_individ_g", file="optimizers/_shaga.py", cls="SHAGA", func="_get_new_individ_g",
+         params=[("individ_g", "Arr"), ("MR", "Int"), ("CR", "Int")], ret="Arr",
+         self_attrs={"_fitness_i": ("fitness_i", "Arr"), "_population_g_i": ("population", "Mat")},
+         ext_fn={"tournament_selection": ("tourFn", ["fitness", "rank", "tour_size", "quantity"]),
+                 "binomialGA": ("crossFn", ["individ", "mutant", "CR"]),
+                 "flip_mutation": ("flipFn", ["individual", "proba"])}),
+    # ---- SelfCGA._adapt: which statistics and which threshold feed which probability table, and which table the next operators are
+    #      drawn from (tables, operator arrays and the fitness are identifiers here; the three helper methods are function parameters)
+    dict(name="SelfCGA_adapt", file="optimizers/_selfcga.py", cls="SelfCGA", func="_adapt", params=[], ret="Self",
+         self_state=["_selection_proba", "_crossover_proba", "_mutation_proba", "_selection_operators", "_crossover_operators", "_mutation_operators"],
+         self_attrs={"_fitness_i": ("fitness_i", "Int")},
+         self_items={"_thresholds": {"selection": "thr_selection", "crossover": "thr_crossover", "mutation": "thr_mutation"}},
+         ext_fn={"self._find_fittest_operator": ("fittestFn", ["operators", "fitness"], ["Int", "Int"], "Int"),
+                 "self._get_new_proba": ("newProbaFn", ["proba_dict", "operator", "threshold"], ["Int", "Int", "Int"], "Int"),
+                 "self._choice_operators": ("choiceFn", ["proba_dict"], ["Int"], "Int")}),
     dict(name="tournament_selection", file="utils/selections.py", func="tournament_selection",
          params=[("fitness", "Arr"), ("rank", "Arr"), ("tour_size", "Int"), ("quantity", "Int")], ret="Arr",
          ext_fn={"random_sample": ("sampler", ["range_size", "quantity", "replace"])}),
@@ -261,7 +277,7 @@ LTY = {"Int": "Int", "Arr": "List Int", "Bool": "Bool", "Mat": "List (List Int)"
        "ArrSelf": "List (List Int)"}
 TREE_ATTR = {"_nodes": "nodes", "_n_args": "nargs"}
 DEFAULT = {"Int": "0", "Arr": "[]", "Bool": "false", "Mat": "[]"}
-RESERVED = ("linspaceFn", "selFn", "mutFn", "donorFn", "crossFn", "repairFn", "_", "shuffler", "grower", "sampler", "wsampler", "end", "at", "from", "to", "in", "do", "then", "fun", "match", "with", "open", "by", "s", "us", "ns", "fuel", "rolls", "max", "min", "hi0", "samples", "self", "self_nodes", "self_nargs", "log", "stops", "kb", "value_ext", "tree")
+RESERVED = ("tourFn", "flipFn", "fittestFn", "newProbaFn", "choiceFn", "linspaceFn", "selFn", "mutFn", "donorFn", "crossFn", "repairFn", "_", "shuffler", "grower", "sampler", "wsampler", "end", "at", "from", "to", "in", "do", "then", "fun", "match", "with", "open", "by", "s", "us", "ns", "fuel", "rolls", "max", "min", "hi0", "samples", "self", "self_nodes", "self_nargs", "log", "stops", "kb", "value_ext", "tree")
 
 
 class NotRecognised(Exception):
@@ -319,6 +335,7 @@ class Tr:
         self.masks: set = set()
         self.opaque_if = cfg.get("opaque_if", {})
         self.opaque_unpack = cfg.get("opaque_unpack", {})
+        self.self_items = cfg.get("self_items", {})
         self.actions = cfg.get("actions", {})
         self.bool_stream = cfg.get("bool_stream", {})
         self.not_none = cfg.get("not_none", {})
@@ -372,6 +389,8 @@ class Tr:
             return "Int"
         if self.tree2(e) is not None:
             return "Tree"
+        if self.self_item(e) is not None:
+            return "Int"
         if isinstance(e, ast.Subscript):
             if self.is_sample1(e) or self.is_uniform1(e):
                 return "Int"
@@ -723,6 +742,14 @@ class Tr:
     def is_minus_one(b):
         return isinstance(b, ast.UnaryOp) and isinstance(b.op, ast.USub) and isinstance(b.operand, ast.Constant) and b.operand.value == 1
 
+    def self_item(self, e):
+        """`self._d["key"]` for a declared dictionary attribute -> parameter name, else None"""
+        if isinstance(e, ast.Subscript) and isinstance(e.slice, ast.Constant) and isinstance(e.slice.value, str):
+            d = self.self_path(e.value)
+            if d in self.self_items and e.slice.value in self.self_items[d]:
+                return self.self_items[d][e.slice.value]
+        return None
+
     def static_true(self, test):
         """`len(P) == 1` for a parameter P declared as a one-element list of trees"""
         return (isinstance(test, ast.Compare) and len(test.ops) == 1 and isinstance(test.ops[0], ast.Eq)
@@ -956,6 +983,8 @@ class Tr:
         if isinstance(e, ast.BoolOp):
             sym = " && " if isinstance(e.op, ast.And) else " || "
             return "(" + sym.join(self.B(v, env) for v in e.values) + ")"
+        if self.self_item(e) is not None:
+            return self.self_item(e)
         if isinstance(e, ast.Subscript):
             if self.is_mask_index(e):
                 return f"(Imp.whereNZ {self.E(e.slice, env)})"
@@ -1063,6 +1092,8 @@ class Tr:
             return acc
         if isinstance(e, ast.Call) and isinstance(e.func, ast.Name) and e.func.id == "isinstance" and len(e.args) == 2:
             return self.oob(e.args[0], env)
+        if self.self_item(e) is not None:
+            return "false"
         if self.tree2(e) is not None:
             return "false"          # a component of a parameter declared as a list of that many trees
         if isinstance(e, ast.Subscript) and is_np(e.value, "r_"):
@@ -1522,6 +1553,7 @@ class Tr:
         extra += "".join(f" ({par} : " + "".join(LTY[t] + " → " for t in tys) + "Nat → Int)" for par, tys in self.opaque_fn.values())
         extra += "".join(f" ({v[1]} : {LTY[v[2]] if len(v) > 2 else 'List Int'})" for v in self.opaque_if.values())
         extra += "".join(f" ({n}_p : {LTY[t]})" for n, t in self.opaque_unpack.items() if t is not None)
+        extra += "".join(f" ({v} : Int)" for d in self.self_items.values() for v in d.values())
         extra += "".join(f" ({v} : Bool)" for v in self.not_none.values())
         extra += "".join(f" ({par} : List Int)" for par, _ in self.bool_stream.values())
         imports = "".join(f"import TFV.Generated.Src.{u}\n" for u in list(self.uses) + list(self.method_uses.values()) + list(self.tree_methods.values()) + list(self.tree_calls.values()))
